@@ -326,12 +326,18 @@ where
             }
             chain.push(key);
         }
+        #[cfg(pdf_verif)]
+        crate::verif::yield_point("get:after-push", key.id);
         let _defer = Defer(|| {
+            #[cfg(pdf_verif)]
+            crate::verif::yield_point("get:before-pop", key.id);
             let mut chain = self.chain.lock().unwrap();
             assert_eq!(chain.pop(), Some(key));
         });
         
         let res = self.storage.cache.get_or_compute(key, || {
+            #[cfg(pdf_verif)]
+            crate::verif::yield_point("get:compute-start", key.id);
             match self.resolve(key).and_then(|p| T::from_primitive(p, self)) {
                 Ok(obj) => Ok(AnySync::new(Shared::new(obj))),
                 Err(e) => {
